@@ -69,6 +69,14 @@ def tokenize(
             token.update(char, i)
             take = 1
             continue
+        if quote_context and len(quote_context[-1]) == 3:
+            # Inside a triple-quoted string literal (within code): only three
+            # consecutive quote characters close it.
+            token.update(char, i)
+            if formula[i : i + 3] == quote_context[-1]:
+                quote_context.pop(-1)
+                take = 2
+            continue
         if quote_context and quote_context[-1] in "}`%" and char == quote_context[-1]:
             quote_context.pop(-1)
             if token:
@@ -97,9 +105,13 @@ def tokenize(
         if quote_context and quote_context[-1] in ('"', "'", "`", ")", "]", "}", "%"):
             if char in "`([{\"'" and quote_context[-1] in "})]":
                 # Nested brackets and (string / name) quotes within code
-                quote_context.append(
-                    char.replace("(", ")").replace("[", "]").replace("{", "}")
-                )
+                if char in "\"'" and formula[i : i + 3] == char * 3:
+                    quote_context.append(char * 3)
+                    take = 2
+                else:
+                    quote_context.append(
+                        char.replace("(", ")").replace("[", "]").replace("{", "}")
+                    )
             token.update(char, i)
             continue
 
